@@ -244,7 +244,7 @@ def shapeAt (src : Bytes) (t : Tree) : Bool :=
       s.length ≥ 3 && s.head? == some 0x26 && s.getLast? == some 0x3B
     else if l.kind == IK.hardBreak then
       -- a backslash, or 2+ spaces, with the line ending
-      s == [0x5C] || (let sp := s.takeWhile (· == 0x20); sp.length ≥ 2 && isEOL (s.drop sp.length))
+      (s.head? == some 0x5C && isEOL (s.drop 1)) || (let sp := s.takeWhile (· == 0x20); sp.length ≥ 2 && isEOL (s.drop sp.length))
     else true
 
 def shapes (src : Bytes) (root : Tree) : Bool := (nodes root).all (shapeAt src)
